@@ -98,6 +98,16 @@ pub fn group_shrink(id: usize, cap: &[Slot], before: &[SlotMap], after: &[SlotMa
     GROUP_LOG.with_borrow_mut(|v| v.push(format!("shrink {} [{}] {} {}", id, c.join("|"), enc_perms(before), enc_perms(after))));
 }
 
+/// Records one `Group::add` made by the e-graph: in `union_leaders` (a self-union `id[l] = id[r]`; `l`, `r` given) and in
+/// `determine_self_symmetries` (no `l`, `r`); the permutation handed to the group, the generators before and after.
+pub fn group_add(id: usize, lr: Option<(&SlotMap, &SlotMap)>, perm: &SlotMap, before: &[SlotMap], after: &[SlotMap]) {
+    let (l, r) = match lr {
+        Some((l, r)) => (crate::verif_enc_slotmap(l), crate::verif_enc_slotmap(r)),
+        None => ("-".to_string(), "-".to_string()),
+    };
+    GROUP_LOG.with_borrow_mut(|v| v.push(format!("add {} {} {} {} {} {}", id, l, r, crate::verif_enc_slotmap(perm), enc_perms(before), enc_perms(after))));
+}
+
 /// Returns and clears the group log of the current thread.
 pub fn take_group_log() -> Vec<String> {
     GROUP_LOG.with_borrow_mut(|v| std::mem::take(v))
